@@ -1053,7 +1053,7 @@ def derived_fields(M, c):
     def self_loads(e):
         return {n.attr for n in ast.walk(e) if isinstance(n, ast.Attribute) and isinstance(n.ctx, ast.Load) and isinstance(n.value, ast.Name) and n.value.id == 'self'}
     out = {}
-    meths = {n: m for n, m in c.methods.items() if '@' not in n}
+    meths = {n: m for n, m in c.methods.items() if '@' not in n or n.endswith('@setter')}
     assigned_in = {}
     for name, m in meths.items():
         # parameters stored unchanged in a field stand for that field:  self.A = a ; self.D = f(a)
@@ -1163,7 +1163,51 @@ def stale_writers(M, c, only=None):
                             if not inside and isinstance(t2, ast.Attribute) and ast.unparse(t2) == objtxt and k is not s:
                                 ok = True
                     out.append((fn, s, objtxt, b.attr, D, deps, ok))
+            # the source changed IN PLACE (self.assets.extend(new)) while D is a copy made from it (set(self._assets)): the copy does not follow - unless the same
+            # function brings D up to date as well (assigns it, calls a refresher, or changes D in place too)
+            if inside and _is_copy_of(c, D, deps):
+                proj = {pn_: ch_[0] for ch_, (cn_, pn_) in M.projections().items() if cn_ == c.name and len(ch_) == 1}
+                for s in ast.walk(fn.node):
+                    if not (isinstance(s, ast.Expr) and isinstance(s.value, ast.Call) and isinstance(s.value.func, ast.Attribute)
+                            and s.value.func.attr in ('append', 'extend', 'insert', 'remove', 'pop', 'clear', 'update', 'add', 'discard', 'setdefault', 'popitem', 'appendleft')):
+                        continue
+                    r_ = s.value.func.value
+                    if not (isinstance(r_, ast.Attribute) and isinstance(r_.value, ast.Name) and r_.value.id == 'self'):
+                        continue
+                    src_ = proj.get(r_.attr, r_.attr)
+                    if src_ not in deps:
+                        continue
+                    ok = False
+                    for k in ast.walk(fn.node):
+                        if isinstance(k, ast.Call) and isinstance(k.func, ast.Attribute) and isinstance(k.func.value, ast.Name) and k.func.value.id == 'self' and k.func.attr in refreshing:
+                            ok = True
+                        if isinstance(k, ast.Call) and isinstance(k.func, ast.Attribute) and isinstance(k.func.value, ast.Attribute) and k.func.value.attr == D \
+                                and isinstance(k.func.value.value, ast.Name) and k.func.value.value.id == 'self':
+                            ok = True
+                        kt = k.targets if isinstance(k, ast.Assign) else ([k.target] if isinstance(k, (ast.AugAssign, ast.AnnAssign)) else [])
+                        for t2 in kt:
+                            b2 = t2
+                            while isinstance(b2, ast.Subscript):
+                                b2 = b2.value
+                            if isinstance(b2, ast.Attribute) and b2.attr in (D, src_, r_.attr) and isinstance(b2.value, ast.Name) and b2.value.id == 'self':
+                                ok = True
+                    out.append((fn, s, 'self', r_.attr, D, deps, ok))
     return [w for w in out if not w[6]] if only is not None else out
+
+
+def _is_copy_of(c, D, deps):
+    """every whole assignment of self.D in class c builds a NEW container/figure from a dependency (set(self.a), sorted(self.a), len(self.a), {..comprehension over self.a..})"""
+    found = False
+    for m in c.methods.values():
+        for s in ast.walk(m.node):
+            if isinstance(s, ast.Assign) and any(isinstance(t, ast.Attribute) and t.attr == D and isinstance(t.value, ast.Name) and t.value.id == 'self' for t in s.targets):
+                v = s.value
+                copying = (isinstance(v, ast.Call) and isinstance(v.func, ast.Name) and v.func.id in ('set', 'frozenset', 'list', 'tuple', 'sorted', 'dict', 'len', 'sum', 'max', 'min')) \
+                    or isinstance(v, (ast.ListComp, ast.SetComp, ast.DictComp))
+                if not copying or not any(isinstance(n, ast.Attribute) and n.attr in deps and isinstance(n.value, ast.Name) and n.value.id == 'self' for n in ast.walk(v)):
+                    return False
+                found = True
+    return found
 
 
 def _live_reference_only(M, c, D, attr, stmt):
@@ -1281,8 +1325,9 @@ def stale_derived_values(ctx, rule, prefixes, what):
                               'with every change of %s.%s is an argument about the stamp\'s values, not made here' % (c.name, D, _stamp_validated(c, D), objtxt, attr))
                 continue
             if not ok:
-                ctx.violation(rule, what, fn.site(s), '%s assigns %s.%s, from which %s.%s was computed (%s), and does not recompute it: the stored %s goes stale'
-                              % (fn.qn, objtxt, attr, c.name, D, ', '.join(sorted(deps)), D), key='%s|stale|%s.%s|%s' % (rule, c.name, D, fn.qn))
+                ctx.violation(rule, what, fn.site(s), '%s %s %s.%s, from which %s.%s was computed (%s), and does not recompute it: the stored %s goes stale'
+                              % (fn.qn, 'changes in place' if isinstance(s, ast.Expr) else 'assigns', objtxt, attr, c.name, D, ', '.join(sorted(deps)), D),
+                              key='%s|stale|%s.%s|%s' % (rule, c.name, D, fn.qn))
     ctx.holds(rule, what + ' (derived stored values are refreshed by every writer of what they derive from: %d writer sites)' % n_checked, None)
 
 
